@@ -160,6 +160,21 @@ func transferMenu(w *world.World, o menuOpts) []world.Action {
 				lists = append(lists, []tnq{x, y})
 			}
 		}
+		// pairs with different quantities (an entry of quantity 1 next to an entry of quantity > 1)
+		for _, x := range ones {
+			for _, y := range singles {
+				if y.Q <= 1 || (string(y.Tok) == string(x.Tok) && y.Nonce == x.Nonce) {
+					continue
+				}
+				if h := held(w, from, string(y.Tok)+spec.NonceSuffix(uint64(y.Nonce))); y.Q > h {
+					continue
+				}
+				lists = append(lists, []tnq{x, y})
+				if o.thorough {
+					lists = append(lists, []tnq{y, x})
+				}
+			}
+		}
 		if o.thorough {
 			for _, x := range ones {
 				lists = append(lists, []tnq{x, x, x})
@@ -199,12 +214,9 @@ func deliveries(w *world.World) []world.Action {
 // freezeMenu enumerates the system contract's freeze / pause controls.
 func freezeMenu(w *world.World, o menuOpts, withWipe bool) []world.Action {
 	var acts []world.Action
-	accts := [][]byte{uni.B0}
+	accts := [][]byte{uni.B0, uni.A0}
 	if o.shards > 1 {
 		accts = append(accts, uni.C1)
-	}
-	if o.thorough {
-		accts = append(accts, uni.A0)
 	}
 	for _, a := range accts {
 		acc := w.Get(a)
@@ -221,9 +233,6 @@ func freezeMenu(w *world.World, o menuOpts, withWipe bool) []world.Action {
 		}
 	}
 	for sh := 0; sh < o.shards; sh++ {
-		if sh == 0 && !o.thorough && o.shards > 1 {
-			continue
-		}
 		for _, tok := range [][]byte{uni.F, uni.S} {
 			if spec.Paused(w, uint32(sh), string(tok)) {
 				acts = append(acts, uni.PauseCall(sh, vmcommon.BuiltInFunctionESDTUnPause, tok))
